@@ -8,9 +8,9 @@ package main
 // live in a new overlay package (public API only).
 
 import (
-	"os"
 	"fmt"
 	"go/types"
+	"os"
 	"path/filepath"
 	"sort"
 	"strings"
@@ -19,13 +19,13 @@ import (
 )
 
 type raceSubject struct {
-	Name    string   // harness name component
-	Pkg     string   // import path suffix of the type's package
-	Type    string   // type name (pointer receiver assumed)
-	Setup   []string // Go statements building the shared objects; must define `x`
-	Extra   []string // additional receivers: "<expr>|<import suffix>|<Type>" sharing state with x
-	Warm    string   // optional warm-up statement executed in setup
-	Skip    map[string]bool
+	Name  string   // harness name component
+	Pkg   string   // import path suffix of the type's package
+	Type  string   // type name (pointer receiver assumed)
+	Setup []string // Go statements building the shared objects; must define `x`
+	Extra []string // additional receivers: "<expr>|<import suffix>|<Type>" sharing state with x
+	Warm  string   // optional warm-up statement executed in setup
+	Skip  map[string]bool
 }
 
 var raceSubjects = []raceSubject{
